@@ -72,11 +72,28 @@ def decode_table(P):
             tab["rcode"] = {"octet": octet_index.get(cs[0][3]), "mask": norm(x[3])[1]}
         if x[0] == "bin" and x[1] in ("Shl", "ShlUnchecked") and norm(x[3])[0] == "const":
             tab.setdefault("rcode_ext", {})["shift_into_rcode"] = norm(x[3])[1]
-    # OPT-derived fields: closures
+    # OPT-derived fields: what is computed from the OPT record, whether in a closure handed to map / map_or / is_some_and or in
+    # the arm of a match on the record.  Closures that *select* the record (find, position, filter) compute nothing of the kind.
+    SELECTORS = ("find", "position", "filter", "rposition", "find_map", "any", "all", "skip_while", "take_while")
+
+    def selecting(t):
+        out = set()
+        for x in subterms(t):
+            if x[0] == "call" and isinstance(x[1], str) and x[1].rsplit("::", 1)[-1] in SELECTORS:
+                for a_ in x[2]:
+                    a_ = norm(a_)
+                    if a_[0] == "agg" and a_[1].startswith("closure:"):
+                        out.add(a_[1])
+        return out
+
+    def is_closure(x):
+        return x[0] == "agg" and isinstance(x[1], str) and x[1].startswith("closure:")
+
     def closure_expr(t):
         out = []
+        skip = selecting(t)
         for x in subterms(t):
-            if x[0] == "agg" and x[1].startswith("closure:"):
+            if is_closure(x) and x[1] not in skip:
                 cb = P.bodies.get(x[1][8:])
                 if cb is not None:
                     Tc = terms(P, cb)
@@ -84,34 +101,49 @@ def decode_table(P):
                         if s2["p"] == (0,) and "rv" in s2:
                             out.append(norm(Tc.rvalue(s2["rv"], b2, i2)))
         return out
-    for e in closure_expr(f["edns_do"]):
+
+    def alternatives(t):
+        alts = [norm(t)]
+        for _ in range(4):
+            alts = [z for y in alts for z in ([norm(q) for q in y[1]] if y[0] == "phi" else [y])]
+        return alts
+
+    def direct(t):
+        """the sub-expressions of t outside any closure"""
+        return list(subterms(t, prune=is_closure))
+    for e in closure_expr(f["edns_do"]) + alternatives(f["edns_do"]):
         if e[0] == "bin" and e[1] == "Ne":
             a = norm(e[2])
             if a[0] == "bin" and a[1] == "BitAnd" and norm(a[3])[0] == "const":
                 tab["edns_do"] = {"mask": norm(a[3])[1], "of": "ttl" if any(y[0] == "field" and y[2] == "ttl" for y in subterms(a[2])) else "?"}
-    for e in closure_expr(f["edns_ver"]):
-        for x in subterms(e):
-            if x[0] == "bin" and x[1] in ("Shr", "ShrUnchecked") and norm(x[3])[0] == "const":
-                tab["edns_ver"] = {"shift": norm(x[3])[1]}
-    for e in closure_expr(f["rcode"]):
-        for x in subterms(e):
-            if x[0] == "bin" and x[1] in ("Shr", "ShrUnchecked") and norm(x[3])[0] == "const":
-                tab["ext_rcode"] = {"shift": norm(x[3])[1]}
-    # bufsize: max(map_or(opt, D, closure), FLOOR)
-    t = f["bufsize"]
-    if t[0] == "call" and str(t[1]).endswith("cmp::max"):
-        consts = [norm(a)[1] for a in t[2] if norm(a)[0] == "const"]
-        inner = [norm(a) for a in t[2] if norm(a)[0] == "call"]
-        dflt = None
-        from_class = False
-        for i in inner:
-            if str(i[1]).endswith("::map_or"):
-                d0 = norm(i[2][1])
-                dflt = d0[1] if d0[0] == "const" else None
-                for e in closure_expr(i):
-                    if any(y[0] == "field" and y[2] == "class" for y in subterms(e)):
-                        from_class = True
-        tab["bufsize"] = {"floor": consts[0] if consts else None, "default": dflt, "from_opt_class": from_class}
+    for x in [y for e in closure_expr(f["edns_ver"]) for y in subterms(e)] + direct(f["edns_ver"]):
+        if x[0] == "bin" and x[1] in ("Shr", "ShrUnchecked") and norm(x[3])[0] == "const" and any(y[0] == "field" and y[2] == "ttl" for y in subterms(x[2])):
+            tab["edns_ver"] = {"shift": norm(x[3])[1]}
+    for x in [y for e in closure_expr(f["rcode"]) for y in subterms(e)] + direct(f["rcode"]):
+        if x[0] == "bin" and x[1] in ("Shr", "ShrUnchecked") and norm(x[3])[0] == "const" and any(y[0] == "field" and y[2] == "ttl" for y in subterms(x[2])):
+            tab["ext_rcode"] = {"shift": norm(x[3])[1]}
+    # bufsize: max(map_or(opt, D, closure), FLOOR), or per arm: max(o.class, FLOOR) with the record, D without
+    floors, dflt, from_class, shaped = [], None, False, True
+    for t in alternatives(f["bufsize"]):
+        if t[0] == "const" and isinstance(t[1], int):
+            dflt = t[1]
+            floors.append(t[1])
+        elif t[0] == "call" and str(t[1]).endswith("cmp::max"):
+            consts = [norm(a)[1] for a in t[2] if norm(a)[0] == "const"]
+            floors.append(consts[0] if consts else None)
+            for i in [norm(a) for a in t[2] if norm(a)[0] != "const"]:
+                if i[0] == "call" and str(i[1]).endswith("::map_or"):
+                    d0 = norm(i[2][1])
+                    dflt = d0[1] if d0[0] == "const" else None
+                    for e in closure_expr(i):
+                        if any(y[0] == "field" and y[2] == "class" for y in subterms(e)):
+                            from_class = True
+                elif any(y[0] == "field" and y[2] == "class" for y in direct(i)):
+                    from_class = True
+        else:
+            shaped = False
+    if shaped and floors and None not in floors:
+        tab["bufsize"] = {"floor": min(floors), "default": dflt, "from_opt_class": from_class}
     return tab, (b, s["sp"])
 
 
